@@ -118,6 +118,30 @@ pub fn field_inputs(base: &Base, only_inflate: bool) -> Vec<Input> {
     out
 }
 
+/// Two neighbouring declared sizes / counts inflated TOGETHER (a cap computed from one declared field by
+/// another declared field is no cap): every pair of length / count / size fields at most three fields apart,
+/// both set to their type maximum and both set to a large-but-plausible value.
+pub fn pair_field_inputs(base: &Base) -> Vec<Input> {
+    let fields: Vec<_> = base.map.fields.iter().filter(|f| f.width >= 2 && f.width <= 4 && matches!(f.kind, Kind::Len | Kind::Count | Kind::Size)).collect();
+    let mut out = Vec::new();
+    for i in 0..fields.len() {
+        for j in i + 1..(i + 4).min(fields.len()) {
+            for big in [true, false] {
+                let mut b = base.bytes.clone();
+                let mut desc = Vec::new();
+                for f in [fields[i], fields[j]] {
+                    let max = (1u64 << (8 * f.width)) - 1;
+                    let v = if big { max } else if f.width == 4 { 60_000_016 } else { 0xfff0 };
+                    write_field(&mut b, f.off, f.width, v);
+                    desc.push(format!("{}={}", f.name, v));
+                }
+                out.push(Input { operator: "field:pair".into(), label: format!("{}: {}", base.name, desc.join(", ")), bytes: b });
+            }
+        }
+    }
+    out
+}
+
 pub fn multi_field_inputs(base: &Base, rng: &mut Rng, n: usize) -> Vec<Input> {
     let fields: Vec<_> = base.map.fields.iter().filter(|f| f.kind.structural() && f.width <= 4).collect();
     let mut out = Vec::new();
@@ -226,7 +250,7 @@ fn chunk_positions(spec: &FileSpec, kind: &str) -> Vec<(usize, usize)> {
     v
 }
 
-pub const MODEL_OPS: [&str; 56] = [
+pub const MODEL_OPS: [&str; 57] = [
     "cel_payload_short",
     "cel_payload_long",
     "cel_decl_bigger",
@@ -283,6 +307,7 @@ pub const MODEL_OPS: [&str; 56] = [
     "late_cel_payload_short",
     "late_link_to_missing",
     "late_tileset_mismatch",
+    "declared_frames_tall_stack",
 ];
 
 fn fmt_of(spec: &FileSpec) -> Fmt {
@@ -685,6 +710,34 @@ pub fn model_input(base: &Base, op: usize, rng: &mut Rng, deep_groups: usize) ->
                 at += 1;
             }
             label = format!("{} user-data records after a tags({}) chunk", n + 1, n);
+        }
+        "declared_frames_tall_stack" => {
+            // hundreds of layers, two real frames with a cel on the top layer (image, then linked / image / tilemap),
+            // and a header that declares tens of thousands of frames: per-frame rows must not be sized by layer index
+            let nl = *rng.pick(&[200usize, 600, 2000]);
+            let declared = *rng.pick(&[65_535u16, 40_000]);
+            let kind = rng.below(3);
+            let mut sp = Sprite::blank(2, 2, Fmt::Rgba, 2);
+            if kind == 2 {
+                sp.tilesets.push(TilesetM { id: 0, flags: TS_EMBED | TS_ZERO_EMPTY, count: 2, tw: 1, th: 1, base_index: 1, name: String::new(), ext: None, pixels: vec![0, 0, 0, 0, 9, 9, 9, 255] });
+            }
+            for l in 0..nl {
+                let mut ly = LayerM::image("");
+                if kind == 2 && l == nl - 1 {
+                    ly.kind = LayerKind::Tilemap(0);
+                }
+                sp.layers.push(ly);
+            }
+            let top = (nl - 1) as u16;
+            let content = if kind == 2 { CelContentM::Tilemap { w: 1, h: 1, tiles: vec![1], masks: [0x1fff_ffff, 0x2000_0000, 0x4000_0000, 0x8000_0000] } } else { CelContentM::Image { w: 1, h: 1, pixels: vec![1, 2, 3, 255] } };
+            sp.cels.insert((0, top), CelM { x: 0, y: 0, opacity: 255, content: content.clone(), ud: None });
+            sp.cels.insert((1, top), CelM { x: 0, y: 0, opacity: 255, content: if kind == 0 { CelContentM::Link(0) } else { content }, ud: None });
+            let mut r = Rng::new(4);
+            let mut v = Variation::none();
+            v.default_storage = Storage::Raw;
+            spec = crate::program::compile(&sp, &mut r, &v);
+            spec.header.frames = declared;
+            label = format!("{} layers, 2 frames with a {} cel on the top layer, header declares {} frames", nl, ["linked", "image", "tilemap"][kind as usize], declared);
         }
         "cel_layer65535_many_frames" => {
             let n = 200usize;
